@@ -460,8 +460,8 @@ def run(ctx):
         pricef = None
         for p in ix.paths(twf):
             for e in p.events:
-                if e.target is not None and any(e.target.locals[i + 1]["ty"] in pty for i in range(e.target.arg_count)):
-                    pricef = e.target
+                if e.target is not None and any(e.target.locals[i + 1]["ty"].lstrip("&") in pty for i in range(e.target.arg_count)):
+                    pricef = e.target   # (by value or by reference)
         if pricef is None:
             ctx.lost("R18.5", "the per-snapshot price function the TWAP loop calls")
         for variant, want in (("TwapPrice", "reserve"), ("InputTwap", "InputAmount"), ("OutputTwap", "OutputAmount")):
@@ -474,7 +474,16 @@ def run(ctx):
                 continue
             bad = None
             n_ok = 0
-            for q in a.ok_paths():
+            def reaches_twap(e, twf=twf):
+                try:
+                    return e.target.key != twf.key and ("call", twf.pretty) in ix.summary(e.target)["may"]
+                except Exception:
+                    return False
+            qpaths = a.ok_paths()
+            if not any(e.target is not None and e.target.key == twf.key for q in qpaths for e in q.events):
+                # the TWAP call sits in a helper shared by the query functions: open it
+                qpaths = splice(ix, qpaths, reaches_twap, rounds=3)
+            for q in qpaths:
                 call = None
                 for e in q.events:
                     if e.target is not None and e.target.key == twf.key:
@@ -506,7 +515,7 @@ def run(ctx):
                 if not any(is_counter(x) for x in kids(pv)):
                     bad = bad or "the averaging does not start at snapshot[counter]"
                 # compose with the per-snapshot price function
-                ppar = [sym.param(pricef.key, i, pricef.param_name(i)) for i in range(pricef.arg_count) if pricef.locals[i + 1]["ty"] in pty]
+                ppar = [sym.param(pricef.key, i, pricef.param_name(i)) for i in range(pricef.arg_count) if pricef.locals[i + 1]["ty"].lstrip("&") in pty]
                 if not ppar:
                     bad = bad or "price function signature not recognised"
                     continue
